@@ -247,3 +247,9 @@ package radius
 //@   trusted network exchange with the RADIUS server; callers only see the verdict
 //@   modifies nothing
 //@   sets authAccepted = err == nil && result != nil && result.Accepted
+
+// ---- policy.go: read by the QoS manager (C19) ----
+//@ func (pm *PolicyManager) GetPolicy
+//@   trusted reads the policy table under its own lock
+//@   modifies nothing
+
